@@ -21,7 +21,7 @@ def run(r):
         r.extra['graph_cover'] = {'nodes': nn, 'edges': ne, 'edges_replayed': nc, 'behaviours': len(behs)}
         r.replay(None, behs, 'H5Store', 'graph(c12), all access paths', parallel=16, factory=H5Driver,
                  factory_kw=dict(level='full', tag='C12', generator=True, seed=r.seed))
-    n = 2400 if thorough else 110
+    n = 2400 if thorough else 90
     s = tlc.simulate('H5StoreMC', 'H5Store_c12sim.cfg', 'C12/sim', num=n, depth=8, seed=r.seed + 12)
     if s.violated:
         raise tlc.TLCError('simulation config violates %s' % s.violated)
@@ -36,12 +36,36 @@ def run(r):
     if thorough:
         from checks import pipe
         pipe.stage(r, 300)
+    apalache_iterpos(r)
     for op in ('Add', 'Close', 'Reopen'):
         if not r.actions_seen.get(op):
             raise tlc.TLCError('vacuity guard: op %s never replayed' % op)
     r.assumptions += ['access paths: slice_range 1..n+1, indices -n..n-1, slices with None/negative bounds and steps 1..n',
                       'FileGenerator count clause: non-decreasing and equal to the file total after each file',
                       'files without any particle table are outside the domain (reader needs total_thrown)']
+
+
+def apalache_iterpos(r):
+    """unbounded part: the iterator position arithmetic as an inductive invariant (Apalache, symbolic N/Start/Stop/Step/SR)"""
+    import os
+    import subprocess
+    import time
+    spec = os.path.join(tlc.SPEC, 'apalache', 'IterPos.tla')
+    out = os.path.join(tlc.WORK, 'C12', 'apalache')
+    res = {}
+    for name, args in (('Init => IndInv', ['--init=Init', '--length=0']), ('IndInv /\\ Next => IndInv\'', ['--init=IndInit', '--length=1'])):
+        t0 = time.time()
+        p = subprocess.run(['apalache-mc', 'check', '--cinit=CInitAny', '--inv=IndInv', '--out-dir=' + out] + args + [spec],
+                           stdout=subprocess.PIPE, stderr=subprocess.STDOUT, text=True, timeout=900)
+        ok = 'The outcome is: NoError' in p.stdout
+        res[name] = {'ok': ok, 'wall_s': round(time.time() - t0, 1)}
+        if not ok:
+            if 'The outcome is: Error' in p.stdout:
+                path = r.write_replay({'kind': 'apalache', 'obligation': name, 'output': p.stdout[-3000:]})
+                r.violation(path, 'Apalache: inductive invariant of IterPos.tla fails (%s)' % name)
+            else:
+                raise tlc.TLCError('apalache-mc failed:\n' + p.stdout[-2000:])
+    r.extra['apalache_inductive_invariant_IterPos'] = res
 
 
 def replay(r, path):
